@@ -15,7 +15,7 @@
    All walks recurse on fuel (the nesting depth of the schema text bounds it); theorems hold for
    every fuel. *)
 From Verif Require Import Base.Prelude Base.Str Base.Float Base.GoVal
-  Schema.Regex Schema.Units Schema.Syntax Schema.Ops.
+  Schema.Regex Schema.Units Schema.Syntax Schema.Ops Schema.Wf.
 Open Scope string_scope.
 
 Inductive pstep := PItem | PKey | PVal | PProp (n : string) | PMember (k : okey) | PObj (id : string).
@@ -200,3 +200,34 @@ Fixpoint inline_refs (fuel : nat) (tab : objtab) (stop : list string) (s : schem
     | _ => s
     end
   end.
+
+(* ---------- boolean side conditions of the C14 theorems (evaluated on every generated case by
+   Interp/RunLink.v) ---------- *)
+Fixpoint okey_in (k : okey) (l : list okey) : bool :=
+  match l with [] => false | x :: t => okey_eqb k x || okey_in k t end.
+Fixpoint nodup_okey (l : list okey) : bool :=
+  match l with [] => true | x :: t => negb (okey_in x t) && nodup_okey t end.
+
+(* unique keys in every property / member / object list (Go maps): distinct occurrences, distinct paths *)
+Fixpoint luniq (s : schema) {struct s} : bool :=
+  match s with
+  | SList it _ _ => luniq it
+  | SMap k v _ _ => luniq k && luniq v
+  | SObject _ _ props => nodup_str (map fst props) && forallb (fun np => luniq (p_type (snd np))) props
+  | SOneOf types _ _ _ => nodup_okey (map fst types) && forallb (fun km => luniq (snd km)) types
+  | SScope objs _ => nodup_str (map fst objs) && forallb (fun io => luniq (snd io)) objs
+  | _ => true
+  end.
+
+(* namespace names are distinct and none of them is the self namespace *)
+Definition ns_names_ok (apps : list (string * objtab)) : bool :=
+  nodup_str (map fst apps) && negb (str_in "" (map fst apps)).
+
+(* scope tables hold objects (in Go: map[string]*ObjectSchema), checked at every self-namespace reference *)
+Definition ref_obj (e : env) (s : schema) : bool :=
+  match s with
+  | SRef id ns _ =>
+      if String.eqb ns "" then match alookup id (e_self e) with Some o => is_obj o | None => true end else true
+  | _ => true
+  end.
+Definition refs_to_objects (e : env) (s : schema) : bool := all_env ref_obj e && all_nodes ref_obj e s.
